@@ -94,6 +94,11 @@ def check_spellings(ctx, case):
     perm = list(range(mol.GetNumAtoms()))
     rnd.shuffle(perm)
     inputs += [('Mol-object', Chem.Mol(mol)), ('Mol-object-explicit-H', Chem.AddHs(mol)), ('Mol-object-renumbered', Chem.RenumberAtoms(mol, perm))]
+    # hydrogens as atoms anywhere in the atom order (a mol file that lists C, H, H, H, C ...), not only behind the heavy atoms
+    mh = Chem.AddHs(mol)
+    permh = list(range(mh.GetNumAtoms()))
+    rnd.shuffle(permh)
+    inputs.append(('Mol-object-explicit-H-shuffled', Chem.RenumberAtoms(mh, permh)))
     for kind, inp in inputs:
         o = outcome(lib, inp)
         shown = inp if isinstance(inp, str) else 'Mol(%s)' % Chem.MolToSmiles(inp, canonical=False)
